@@ -1,7 +1,6 @@
 package main
 
 import (
-	"github.com/z7zmey/php-parser/pkg/errors"
 	"strings"
 
 	"github.com/z7zmey/php-parser/pkg/ast"
@@ -109,7 +108,7 @@ func c03Heredoc(c *core.Ctx, cs hdCase) {
 		// no earlier line closes the heredoc: the program is the heredoc, `;`, and one more statement — valid
 		c.Stat("valid_by_model", 1)
 		if res.NErr() > 0 || hd == nil {
-			c.Report("a valid heredoc is rejected ("+fam+", "+grp+"): "+errClassOf(res.Errs), mkWhat("%s in %q under %s; the closing label is at body offset %d", errList(res.Errs), cs.Src, cs.Ver, st), cs)
+			c.Report("a valid heredoc is rejected ("+fam+", "+grp+")", mkWhat("%s in %q under %s; the closing label is at body offset %d", errList(res.Errs), cs.Src, cs.Ver, st), cs)
 			return
 		}
 	} else {
@@ -126,12 +125,6 @@ func c03Heredoc(c *core.Ctx, cs hdCase) {
 	c.Stat("heredoc_spans_compared", 1)
 }
 
-func errClassOf(es []*errors.Error) string {
-	if len(es) == 0 {
-		return "no heredoc node"
-	}
-	return errClass(es[0].Msg)
-}
 
 func c03Heredocs(c *core.Ctx) {
 	n := 3
